@@ -208,6 +208,8 @@ def mod_work(name, tier, viols, stats, counters):
                 prog = prog + [0]
             y = refs.bech32_encode(ver, prog)
             evals += compare(name, mod, ref, t, y, viols, stats)
+            # the same data under the Bech32m constant (BIP-350): not a BIP-173 address
+            evals += compare(name, mod, ref, t, refs.bech32_encode(ver, prog, const=0x2bc830a3), viols, stats)
             evals += compare(name, mod, ref, t, y.upper(), viols, stats)
             counters['constructed_addresses'] += 1
         for _ in range(200 if tier == 'quick' else 3000):
@@ -216,6 +218,17 @@ def mod_work(name, tier, viols, stats, counters):
             y = refs.base58check_encode(bytes([vb]) + bytes(rng.randrange(256) for _ in range(n)))
             evals += compare(name, mod, ref, t, y, viols, stats)
             counters['constructed_addresses'] += 1
+    # identifiers that happen to begin with the letters of their own label (a label-stripping step must not eat them)
+    label = name.split('.')[-1].upper()
+    for c in canon[:8]:
+        for lab in (label, label + ':', label[:2] + label[2:]):
+            for L2 in sorted({len(x) for x in canon})[:4]:
+                if L2 > len(lab):
+                    body = lab + c[len(lab):] if len(c) >= L2 else lab
+                    y = (body + c)[:L2]
+                    evals += compare(name, mod, ref, t, y, viols, stats)
+                    evals += compare_presented(name, mod, ref, t, y[:2] + seps[-1] + y[2:], viols, stats)
+                    evals += compare_presented(name, mod, ref, t, lab + ' ' + y, viols, stats)
     # random strings over the alphabet, every length
     for L in range(0, refs.MAXLEN[name] + 3):
         for _ in range(20 if tier == 'quick' else 400):
